@@ -32,6 +32,12 @@ INLINE = [
     {"inline": "SELECT a  from b\n", "file": "sub/f.sql", "extra": {"sub/.sqlfluff": "[sqlfluff]\nexclude_rules = LT01\n"}},
     {"inline": "SELECT {{ col }}  from {{ tbl }}\n", "file": "sub/f.sql", "extra": {"sub/.sqlfluff": "[sqlfluff:templater:jinja:context]\ncol = a\ntbl = b\n"}},
     {"inline": "SELECT {{ col }}  from b\n", "file": "sub/deep/f.sql", "extra": {"sub/.sqlfluff": "[sqlfluff:templater:jinja:context]\ncol = a\n", "sub/deep/.sqlfluff": "[sqlfluff]\nrules = CP01\n"}},
+    # non-ASCII text (a path is decoded from bytes by sqlfluff, stdin and the API receive str): early, and only after
+    # a long pure-ASCII prefix (1 KiB, 4 KiB, 64 KiB boundaries of anything that looks at a prefix of the file)
+    {"inline": "SELECT 'é'  from b -- ü\n"},
+    {"inline": "SELECT a  from b -- " + "x" * 1100 + "\nSELECT 'é'  from b -- ü\n"},
+    {"inline": "SELECT a  from b\n" * 300 + "SELECT 'é中'  from b\n"},
+    {"inline": "SELECT a  from b -- " + "x" * 70000 + "\nSELECT 'é'  from b\n", "cfg_extra": "large_file_skip_byte_limit = 0\n"},
     # templated files in the project root
     {"inline": "SELECT {% if true %}a{% else %}b{% endif %}  from b\n"},
     {"inline": "SELECT a {% for x in [1, 2] %}, {{ x }} {% endfor %} from b  \n"},
@@ -99,7 +105,7 @@ def run_case(case):
         s = {
             "err": "none", "fix": "none", "supp": "none", "feu": False, "inline": [case["i"], case.get("sp", 0), case.get("pl", 0), case.get("crlf", 0)],
             "text": directive_text(case),
-            "cfg": "[sqlfluff]\ndialect = ansi\nrules = %s\n" % spec.get("rules", "LT01,CP01"),
+            "cfg": "[sqlfluff]\ndialect = ansi\nrules = %s\n" % spec.get("rules", "LT01,CP01") + spec.get("cfg_extra", ""),
         }
         if "file" in spec:
             s["file"] = spec["file"]
